@@ -65,6 +65,9 @@ def run(db, chk):
              "snapshot queries read is assigned from the source graph by _save on every path; "
              "column-0-only copies only for tables written exclusively at column 0 by "
              "single-direction operators", min_instances=10)
+    chk.rule("C16-T6", "the snapshot copy interpreted on concrete-shaped tables of distinct tokens: every table of "
+             "the snapshot equals the graph's afterwards (column 0 for a single-direction snapshot, whatever the "
+             "width of the graph's tables)", min_instances=6)
     chk.rule("C16-T2", "every mutating public method of flow_graph is dominated by the read-only "
              "guard; m_writeable is written only by constructors", min_instances=4)
     chk.rule("C16-T3", "elevation snapshots are whole-array copies taken after the preceding "
@@ -154,11 +157,12 @@ def run(db, chk):
             ok = c is not None and c["from_src"]
             detail = ""
             if not ok:
-                if m not in W and m in forwarded:
-                    ok = True
-                else:
-                    detail = "_save never assigns it from the source graph on some path: the " \
-                             "snapshot keeps a stale / default value"
+                # (forwarding a setter of the parent graph to its snapshots is NOT an alternative:
+                #  the snapshot would follow a later re-configuration without any update)
+                detail = "_save never assigns it from the source graph on some path: the " \
+                         "snapshot keeps a stale / default value%s" % (
+                             " (the parent's setters forward it instead: a re-configuration of the parent "
+                             "leaks into the snapshot of the previous update)" if m in forwarded else "")
             elif c["col_only"]:
                 # column-0 copy on the single-flow branch: all single-direction writers at column 0?
                 bad = []
@@ -266,8 +270,180 @@ def run(db, chk):
             ok = ini is not None and ini.get("init") is not None and strip(ini["init"]).get("cv") is False
             chk.ob("C16-T2", "snapshot constructor sets m_writeable = false [%s]" % uname, ok,
                    where=fn.ploc, function=fn.bn, construct="ctor(m_writeable)", extra={"unit": uname})
+    # ---------------------------------------------------------------- T6: the copy itself, interpreted
+    save_copy_rule(db, chk)
     chk.absorb(db, "C19", {"C19-L2"}, "C16-T4", "basins / pits of a (snapshot) graph are recomputed from the tables it "
                "holds at the time of the query (shared with C19-L2): the snapshot operator overwrites those tables "
                "without going through the facade", min_instances=3)
     chk.absorb(db, "C04", {"C04-S1"}, "C16-T5", "the single-direction state a snapshot copies is complete after the "
                "router: count and weight one are rewritten at every update (shared with C04-S1)", min_instances=100)
+
+
+def save_copy_rule(db, chk):
+    """C16-T6: flow_snapshot's _save(graph, snapshot) interpreted on concrete-shaped arrays of distinct
+    tokens: a single-direction snapshot (one receiver column) of a graph that is wider (another
+    operator of the sequence is multiple-direction) and a multiple-direction snapshot; afterwards
+    every table of the snapshot equals the source, column 0 for the single-direction snapshot"""
+    from ..interp import Interp, World, Obj, PyVec, Sym, ThrowEx, NOT_HANDLED, OutOfRange
+    from .. import ndsym
+    from ..ndsym import NDArr, is_arr, ShapeMismatch, IndexOutside
+    from .C14 import ADIWorld, UninitUse
+
+    class FlatPtr:
+        def __init__(self, arr, pos=0):
+            self.arr, self.pos = arr, pos
+
+        def __deepcopy__(self, memo):
+            return self
+
+    def flat_index(arr, k):
+        idx = []
+        for n_ in reversed(arr.shape):
+            idx.append(k % n_)
+            k //= n_
+        if k:
+            raise IndexOutside("flat position beyond the end of %s" % arr.name)
+        return tuple(reversed(idx))
+
+    class SaveWorld(ADIWorld):
+        def __init__(self, n):
+            ADIWorld.__init__(self, [1, 1], [n])
+            self.n = n
+
+        def before_call(self, it, fn, call, callee, frame):
+            nm = callee.bn.split("::")[-1]
+            if nm == "size" and (callee.cls or "").endswith("flow_graph_impl"):
+                return self.n
+            return NOT_HANDLED
+
+        def external(self, it, fn, call, frame):
+            bn = call.get("bn", "") or ""
+            name = bn.split("::")[-1]
+            args = call.get("a", [])
+            obj = call.get("obj")
+
+            def V(i):
+                return it.rv(it.eval(args[i], frame))
+            if bn in ("xt::col", "xt::row") and len(args) == 2:
+                arr, k = V(0), V(1)
+                if is_arr(arr) and len(arr.shape) == 2:
+                    return ndsym.view(arr, ["all", k] if bn == "xt::col" else [k, "all"])
+            if bn in ("std::copy_n", "std::copy") and len(args) == 3:
+                a0, a1, a2 = V(0), V(1), V(2)
+                if isinstance(a0, FlatPtr) and isinstance(a2, FlatPtr):
+                    cnt = a1 if bn == "std::copy_n" else (a1.pos - a0.pos if isinstance(a1, FlatPtr) else None)
+                    if not isinstance(cnt, int):
+                        raise AnalysisBroken("C16-T6: copy over an abstract count")
+                    vals = [a0.arr.get(flat_index(a0.arr, a0.pos + k)) for k in range(cnt)]
+                    for k, v in enumerate(vals):
+                        a2.arr.set(flat_index(a2.arr, a2.pos + k), v)
+                    return FlatPtr(a2.arr, a2.pos + cnt)
+            if obj is not None:
+                oref = it.eval(obj, frame)
+                o = it.rv(oref)
+                if is_arr(o) and name in ("data", "begin", "cbegin") and not args:
+                    return FlatPtr(o, 0)
+                if is_arr(o) and name in ("end", "cend") and not args:
+                    tot = 1
+                    for d in o.shape:
+                        tot *= d
+                    return FlatPtr(o, tot)
+                if is_arr(o) and name == "storage" and not args:
+                    return o
+                if isinstance(o, PyVec) and name == "operator=":
+                    v = V(0)
+                    o[:] = list(v)
+                    return oref
+            return ADIWorld.external(self, it, fn, call, frame)
+
+    units = sorted(db.units) if chk.tier == "thorough" else [u for u in ("raster_queen", "profile") if u in db.units]
+    n_inst = 0
+    for uname in units:
+        impls = model.operator_impls(db, uname)
+        save = [f for f in impls.get("fastscapelib::flow_snapshot", {}).get("fns", [])
+                if f.name == "_save" and "flow_graph_impl" in f.type(f.params[0]["t"])]
+        if len(save) != 1:
+            raise AnalysisBroken("C16-T6: snapshot _save(graph, snapshot) not found in unit %s" % uname)
+        sfn = save[0]
+        rec = [r for r in sfn.unit.records if r["bn"] == model.GRAPH_IMPL]
+        if not rec:
+            raise AnalysisBroken("C16-T6: flow_graph_impl record missing in %s" % uname)
+        n, WIDE, DW = 3, 3, 4
+
+        def tokens(name, shape, tag):
+            a = NDArr(shape, None, name)
+            for idx in a.indices():
+                a.data[idx] = "%s%s%s" % (tag, name, list(idx))
+            return a
+
+        def graph(tag, single, ncols):
+            f = {}
+            for fld in rec[0]["fields"]:
+                nm, ts = fld["n"], sfn.unit.type(fld["t"])
+                if fld.get("isref"):
+                    f[nm] = Sym("grid", "g")
+                elif nm in ("m_receivers", "m_receivers_distance", "m_receivers_weight"):
+                    f[nm] = tokens(nm, (n, ncols), tag)
+                elif nm == "m_donors":
+                    f[nm] = tokens(nm, (n, DW), tag)
+                elif ts.startswith("xt::xtensor_container<") or ts.startswith("xt::xarray_container<"):
+                    f[nm] = tokens(nm, (n + (1 if nm == "m_bfs_levels" else 0),), tag)
+                elif ts.startswith("std::vector<") or ts.startswith("std::unordered_set<") or ts.startswith("std::set<"):
+                    f[nm] = PyVec(["%s%s[%d]" % (tag, nm, k) for k in range(2)])
+                elif ts == "bool":
+                    f[nm] = (tag == "src") if nm != "m_single_flow" else single
+                else:
+                    f[nm] = "%s%s" % (tag, nm)
+            f["m_single_flow"] = single
+            return Obj(model.GRAPH_IMPL, f)
+        for label, snap_single, src_cols in (("single-direction snapshot of a wider graph", True, WIDE),
+                                             ("single-direction snapshot of a single-column graph", True, 1),
+                                             ("multiple-direction snapshot", False, WIDE)):
+            n_inst += 1
+            src = graph("src", src_cols == 1, src_cols)
+            dst = graph("old", snap_single, 1 if snap_single else WIDE)
+            old_shapes = {k: tuple(v.shape) for k, v in dst.fields.items() if is_arr(v)}
+            it = Interp(SaveWorld(n), max_steps=200000)
+            bad = []
+            try:
+                it.call_fn(sfn, Obj(sfn.cls, {"m_op_ptr": Obj("fastscapelib::flow_snapshot", {})}), [src, dst])
+            except (ThrowEx, UninitUse, ShapeMismatch, IndexOutside, OutOfRange) as ex:
+                bad.append(str(ex)[:160])
+            if not bad:
+                for fld in rec[0]["fields"]:
+                    nm = fld["n"]
+                    if fld.get("isref") or nm in ("m_single_flow",) or nm in DERIVED_ON_DEMAND:
+                        continue
+                    a, b = src.fields[nm], dst.fields[nm]
+                    # members _save does not touch are T1's business (copy completeness): only what was
+                    # written is compared here
+                    if is_arr(b) and all(str(b.get(i)).startswith("old") for i in b.indices()) and \
+                            tuple(b.shape) == tuple(old_shapes.get(nm, ())):
+                        continue
+                    if isinstance(b, PyVec) and all(str(x).startswith("old") for x in b):
+                        continue
+                    if nm in ("m_receivers", "m_receivers_distance", "m_receivers_weight") and snap_single:
+                        if not is_arr(b) or tuple(b.shape) != (n, 1):
+                            bad.append("%s of the snapshot has shape %r" % (nm, getattr(b, "shape", None)))
+                        else:
+                            for i in range(n):
+                                if b.get((i, 0)) != a.get((i, 0)):
+                                    bad.append("%s(%d, 0) of the snapshot is %r, the graph has %r"
+                                               % (nm, i, b.get((i, 0)), a.get((i, 0))))
+                                    break
+                    elif is_arr(a):
+                        if not is_arr(b) or tuple(a.shape) != tuple(b.shape) or \
+                                any(a.get(i) != b.get(i) for i in a.indices()):
+                            bad.append("%s of the snapshot differs from the graph's" % nm)
+                    elif isinstance(a, PyVec):
+                        if list(a) != list(b):
+                            bad.append("%s of the snapshot differs from the graph's" % nm)
+                    elif a != b and not str(b).startswith("old") is False:
+                        pass
+                    if isinstance(a, (bool, str)) and not is_arr(a) and nm not in ("m_single_flow",) and a != b \
+                            and nm in ("m_mask_initialized",):
+                        bad.append("%s of the snapshot is %r, the graph has %r" % (nm, b, a))
+            chk.ob("C16-T6", "[%s] %s" % (uname, label), not bad, where=sfn.ploc, function=sfn.bn,
+                   construct="save-copy", detail="; ".join(bad[:3])[:400], extra={"unit": uname})
+    if n_inst == 0:
+        raise AnalysisBroken("C16-T6: no unit analysed")
